@@ -62,6 +62,27 @@ def make_project(R):
     return {"docs": docs, "extra": extra, "anchors": R.choice([2, 3])}
 
 
+# explicit link texts: nested markup of several kinds (an image with an empty alt has no text at all, yet is explicit content)
+XT = {"em": "*em* txt", "img": "![](badge.png)", "imgalt": "![alt txt](badge.png)", "code": "`code txt`", "mixed": "**b** ![](badge.png) txt"}
+XT_KINDS = ["em", "em", "img", "imgalt", "code", "mixed"]
+
+
+def explicit_kept(node, xt):
+    """Is the explicit text of variant ``xt`` present below ``node`` with its nested markup?"""
+    from docutils import nodes
+
+    imgs = [i for i in node.findall(nodes.image) if "badge.png" in i.get("uri", "")]
+    if xt == "em":
+        return bool(list(node.findall(nodes.emphasis))) and "txt" in node.astext()
+    if xt == "img":
+        return len(imgs) == 1
+    if xt == "imgalt":
+        return len(imgs) == 1 and imgs[0].get("alt") == "alt txt"
+    if xt == "code":
+        return any(l.astext() == "code txt" for l in node.findall(nodes.literal))
+    return bool(list(node.findall(nodes.strong))) and len(imgs) == 1 and "txt" in node.astext()
+
+
 def rel(frm_doc, to_path):
     return posixpath.relpath(to_path, posixpath.dirname(frm_doc) or ".")
 
@@ -88,11 +109,14 @@ def build_files(P, R):
             mk = f"LK{di}x{n}"
             L.extend([f"{mk} {md} end", ""])
             exp.update(marker=mk, line=len(L) - 1, md=md)
+            if exp.get("explicit"):
+                exp["xt"] = next((k for k in XT_KINDS if md.startswith("[" + XT[k] + "]")), "em")
             mine.append(exp)
 
         for T in R.sample(others, min(len(others), 3)):
             r = rel(D["name"], T["name"])
-            explicit = f"*em* txt"
+            xt = R.choice(XT_KINDS)
+            explicit = XT[xt]
             sp = R.sample(["md", "dotslash", "abs", "abs_noext", "abs_noext_text", "noext", "noext_text", "dot_noext", "project_auto", "project_text", "slug", "slug_empty", "label", "label_empty", "label_p", "empty"], 8)
             for s in sp:
                 if s == "md":
@@ -137,10 +161,10 @@ def build_files(P, R):
         # downloads
         x = R.choice(P["extra"])
         rx = rel(D["name"], x)
-        add(f"[*em* txt]({rx})", {"kind": "download", "file": x, "explicit": True})
+        add(f"[{XT[R.choice(XT_KINDS)]}]({rx})", {"kind": "download", "file": x, "explicit": True})
         add(f"<path:{rx}>", {"kind": "download", "file": x, "explicit": False})
         # missing
-        add(f"[*em* txt](nosuch-{di}-a.md)", {"kind": "missing", "needle": f"nosuch-{di}-a", "explicit": True})
+        add(f"[{XT[R.choice(XT_KINDS)]}](nosuch-{di}-a.md)", {"kind": "missing", "needle": f"nosuch-{di}-a", "explicit": True})
         add(f"[*em* txt](project:nosuch-{di}-b.md)", {"kind": "missing", "needle": f"nosuch-{di}-b", "explicit": True})
         if others:
             T = R.choice(others)
@@ -228,7 +252,7 @@ def judge(ctx, case, b, P, links, files, recs, stage):
                         ctx.count("uris_correct")
                 # text
                 if lk["explicit"]:
-                    if not any(isinstance(c, nodes.emphasis) for c in r.findall(nodes.emphasis)) or "txt" not in r.astext():
+                    if not explicit_kept(r, lk.get("xt", "em")):
                         ctx.violation(f"{pre}text:{k}:explicit-markup-lost", f"explicit text of {lk['md']} rendered as {r.astext()!r} without its nested markup", case, detail)
                 elif r.astext() != lk["text"]:
                     ctx.violation(f"{pre}text:{k}:implicit", f"{lk['md']} shows {r.astext()!r}, the target's title is {lk['text']!r}", case, detail)
@@ -245,7 +269,7 @@ def judge(ctx, case, b, P, links, files, recs, stage):
                     ctx.violation(pre + "download:wrong-file", f"{lk['md']}: downloaded file is not {lk['file']}", case, detail)
                 else:
                     ctx.count("downloads_correct")
-                if lk["explicit"] and "txt" not in n.astext():
+                if lk["explicit"] and not explicit_kept(n, lk.get("xt", "em")):
                     ctx.violation(pre + "text:download:explicit-lost", f"explicit text of {lk['md']} lost: {n.astext()!r}", case, detail)
             elif k == "missing":
                 if lk.get("by_location"):
@@ -263,7 +287,7 @@ def judge(ctx, case, b, P, links, files, recs, stage):
                         ctx.violation(pre + "missing:warning-location", f"the warning for {lk['md']} is located at {loc!r}; the link is on line {lk['line']} of {D['name']}.md", case, detail)
                     else:
                         ctx.count("missing_warned_once_at_line")
-                if lk["explicit"] and ("txt" not in p.astext() or not list(p.findall(nodes.emphasis))):
+                if lk["explicit"] and not explicit_kept(p, lk.get("xt", "em")):
                     ctx.violation(pre + "missing:text-lost", f"the text of the unresolvable link {lk['md']} was not rendered: {p.astext()!r}", case, detail)
     extra = [rr for i, rr in enumerate(recs) if i not in used]
     if extra:
